@@ -7,6 +7,7 @@ import FFVerif.Props.C09EtmChoi
 import FFVerif.Props.C10Shifts
 import FFVerif.Props.C09EtmFn
 import FFVerif.Props.C09EtmFnShapes
+import FFVerif.Props.C09EtmFnCross
 import FFVerif.Pins.pinBasisArrayFinalize
 import FFVerif.Pins.pinFourElementTraces
 import FFVerif.Pins.pinErrorTransferMatrix
@@ -99,6 +100,12 @@ import FFVerif.Pins.C09_cumulant_source_shape
 #print axioms FFVerif.C09.summed_decay_amplitudes_posSemidef
 #print axioms FFVerif.C09.error_transfer_matrix_physical_of_nonneg_spectrum
 #print axioms FFVerif.C09.error_transfer_matrix_physical_of_nonneg_spectrum_single
+#print axioms FFVerif.C09.cross_integrand_posSemidef
+#print axioms FFVerif.C09.summed_decay_amplitudes3_posSemidef
+#print axioms FFVerif.C09.summed_decay_amplitudes_posSemidef_cross
+#print axioms FFVerif.C09.error_transfer_matrix_physical_of_psd_cross_spectrum
+#print axioms FFVerif.Model.EtmFn.trapz_matrix_posSemidef
+#print axioms FFVerif.Model.EtmFn.crossBlock_posSemidef
 #print axioms FFVerif.Pins.pinBasisArrayFinalize
 #print axioms FFVerif.Pins.pinFourElementTraces
 #print axioms FFVerif.Pins.pinErrorTransferMatrix
